@@ -88,6 +88,26 @@ let () = iter_lines (fun line ->
     let cls s = if coarse then string_of_int (int_of_string s / 2) else s in
     let eqf za zb = let a = int_of_z za and b = int_of_z zb in cls ids.(a) = cls ids.(b) in
     print_endline (outcome_str (fun b -> if b then "1" else "0") (Gen_IsSorted.pvIsSorted eqf (nat_of_int (n + 3)) item hash (z_of_int 0) (z_of_int n)))
+  | (("GBS" | "GES") as cmd) :: n :: ws ->
+    (* the GENERATED pvBinarySearch / pvExponentialSearch loops on an array of comparer values; an exponential-search exit that
+       continues with a binary search runs the GENERATED binary search on the shifted comparer *)
+    let n = int_of_string n in
+    let a = Array.of_list (Stdlib.List.map z_of_string ws) in
+    let c zi = let i = int_of_z zi in if i >= 0 && i < n then a.(i) else z_of_int 99 in
+    let fuel = nat_of_int 70 in
+    let z0 = z_of_int 0 in
+    let gen_bs lft cnt =      (* pvBinarySearch(Next(begin, lft), cnt, comparer): result re-based to begin *)
+      let cs zi = c (z_of_int (lft + int_of_z zi)) in
+      match Gen_Searches.pvBinarySearch_loop0 cs fuel z0 z0 (z_of_int cnt) with
+      | Ok (Some _, (l, r)) -> Printf.sprintf "%d 1" (lft + (int_of_z l + int_of_z r) / 2)
+      | Ok (None, (l, _)) -> Printf.sprintf "%d 0" (lft + int_of_z l)
+      | _ -> "Stuck/Fuel" in
+    if cmd = "GBS" then print_endline (gen_bs 0 n)
+    else (match Gen_Searches.pvExponentialSearch_loop0 c fuel z0 (z_of_int n) z0 z0 with
+      | Ok (Some code, (i, lft)) ->
+        if int_of_z code = 1 then Printf.printf "%d 1\n" (int_of_z i) else print_endline (gen_bs (int_of_z lft) (int_of_z i - int_of_z lft))
+      | Ok (None, (_, lft)) -> print_endline (gen_bs (int_of_z lft) (n - int_of_z lft))
+      | _ -> print_endline "Stuck/Fuel")
   | "GGRP" :: n :: ws ->
     (* the GENERATED pvGroup on an array of item ids (equalFunc = same id): final arrangement *)
     let n = int_of_string n in
